@@ -18,6 +18,7 @@ import (
 	"encoding/hex"
 	"encoding/json"
 	"fmt"
+	"os"
 	"sort"
 	"strings"
 	"sync"
@@ -846,7 +847,18 @@ func (r *runner) graph(u *pki.Universe, s *pki.Spec, reverse, allPairs bool, h e
 }
 
 func main() {
+	for i, a := range os.Args {
+		if a == "-worker" && i+1 < len(os.Args) {
+			asyncWorker(os.Args[i+1])
+			return
+		}
+	}
 	ev.Main("C11", "model_checking", func(c *ev.Ctx) {
+		defer func() {
+			if c.Replay == nil {
+				asyncPhase(c)
+			}
+		}()
 		maxLen := verifier.VerifC11MaxIntermediateCount
 		r := &runner{c: c, maxLen: maxLen}
 		c.Set("maximum_chain_length_used_by_oracle", maxLen)
